@@ -86,7 +86,10 @@ class Ctx:
 
     # -- verdicts ----------------------------------------------------------
     def violate(self, clause: str, msg: str, **sig: Any) -> None:
+        hint = sig.pop("_hint", None)
         v = Violation(clause=clause, msg=msg[:2000], sig=dict(sig))
+        if hint is not None:
+            v["hint"] = hint
         self.violations.append(v)
         self.log("VIOLATION", clause, jdump(sig))
 
@@ -139,3 +142,42 @@ def scratch_root() -> str:
 def merge_counts(dst: dict[str, int], src: dict[str, int]) -> None:
     for k, v in src.items():
         dst[k] = dst.get(k, 0) + v
+
+
+class ExcInfo:
+    """What the harness keeps of an exception raised by the library: type and message
+    only.  The traceback is dropped at once so that no reference cycle keeps the
+    library's frames (and e.g. BytesIO objects with exported buffers) alive until an
+    arbitrary later garbage collection."""
+
+    __slots__ = ("name", "msg", "mro", "injected", "notes")
+
+    def __init__(self, e: BaseException):
+        self.name = type(e).__name__
+        self.msg = str(e)[:500]
+        self.mro = tuple(c.__name__ for c in type(e).__mro__)
+        self.injected = "InjectedOSError" in self.mro
+        self.notes = tuple(getattr(e, "__notes__", ()) or ())
+        tb = e.__traceback__
+        e.__traceback__ = None
+        if e.__context__ is not None:
+            e.__context__.__traceback__ = None
+        if e.__cause__ is not None:
+            e.__cause__.__traceback__ = None
+        del tb
+
+    def isa(self, name: str) -> bool:
+        return name in self.mro
+
+    def __repr__(self) -> str:
+        return f"{self.name}: {self.msg}"
+
+
+def capture(fn, *a, **kw):
+    """Call fn; return (result, None) or (None, ExcInfo)."""
+    try:
+        return fn(*a, **kw), None
+    except Exception as e:  # noqa: BLE001
+        info = ExcInfo(e)
+        del e
+        return None, info
